@@ -413,6 +413,9 @@ func (x *Exec) mergeStates(hint string, edges []inEdge) (*State, error) {
 	// defers must agree
 	out.defers = edges[0].st.defers
 	for _, e := range edges[1:] {
+		if x.mergingSnap {
+			break
+		}
 		if len(e.st.defers) != len(out.defers) {
 			return nil, fmt.Errorf("join with differing defer stacks at %s", hint)
 		}
@@ -423,20 +426,30 @@ func (x *Exec) mergeStates(hint string, edges []inEdge) (*State, error) {
 		}
 	}
 	// snapshot: must agree (pointer) or merge
-	out.snap = edges[0].st.snap
-	for _, e := range edges[1:] {
-		if e.st.snap != out.snap {
-			// merge snapshots structurally (heap only)
-			var sedges []inEdge
-			for _, e2 := range edges {
-				sedges = append(sedges, inEdge{e2.st.snap, e2.cond})
+	snapOf := func(st *State) *State {
+		if st.snap != nil {
+			return st.snap
+		}
+		return x.entry
+	}
+	out.snap = snapOf(edges[0].st)
+	if !x.mergingSnap {
+		for _, e := range edges[1:] {
+			if snapOf(e.st) != out.snap {
+				var sedges []inEdge
+				for _, e2 := range edges {
+					sedges = append(sedges, inEdge{snapOf(e2.st), e2.cond})
+				}
+				x.mergingSnap = true
+				ms, err := x.mergeStates(hint+".snap", sedges)
+				x.mergingSnap = false
+				if err != nil {
+					return nil, err
+				}
+				ms.snap = nil
+				out.snap = ms
+				break
 			}
-			ms, err := x.mergeStates(hint+".snap", sedges)
-			if err != nil {
-				return nil, err
-			}
-			out.snap = ms
-			break
 		}
 	}
 	return out, nil
